@@ -22,7 +22,16 @@ MIN_HEADER = {"udp": 5, "aa55": 9, "tcp": 9}
 REG = 35100
 
 
+MARKERS = b"\xaa\x55\x7f\xc0\xaa\x55\xc0\x7f\xf7\x03\x06\xaa\x55\xf7\x83\x02\x01\x86\xff\xff"
+CONTENT = "pattern"  # module-level switch set per case (content class of the payload)
+
+
 def payload_for(reg, n):
+    if CONTENT == "markers":  # envelope markers / headers / function codes inside the payload
+        k = reg % len(MARKERS)
+        return ((MARKERS[k:] + MARKERS) * (n // len(MARKERS) + 2))[:n]
+    if CONTENT == "ff":
+        return b"\xff" * n
     return bytes(((reg * 7 + i * 3 + 1) & 0xFF) for i in range(n))
 
 
@@ -70,6 +79,8 @@ def resolve(spec, F, F2):
 
 
 def check_case(acc: Acc, case):
+    global CONTENT
+    CONTENT = case.get("content", "pattern")
     acc.case()
     transport, T, R, count = case["transport"], case["T"], case["R"], case["count"]
     cmd, F, F2 = frames(transport, count)
@@ -87,7 +98,7 @@ def check_case(acc: Acc, case):
         if len(pieces) >= 2:
             split = True
     if split:
-        acc.nontrivial(transport, case["keep"], T, R, count, repr(case["tx"]))
+        acc.nontrivial(transport, case["keep"], T, R, count, repr(case["tx"]), CONTENT)
     c = {"transport": transport, "keep": case["keep"], "T": T, "R": R, "script": script, "latency": case.get("latency", 0)}
     obs = netcase.run_single(c, command=cmd)
     out = obs.outcome
@@ -161,14 +172,19 @@ def counts_for(transport, quick):
 
 
 def positive_job(job):
+    global CONTENT
     transport, keep, count, T, R = job
     acc = Acc()
+    for content in ("pattern", "markers", "ff"):
+        CONTENT = content
+        cmd, F, F2 = frames(transport, count)
+        for s in range(1, len(F)):
+            for d1, d2 in ((2, 2), (2, 8), (0, 15), (2, 20), (14, 15)) if content == "pattern" else ((2, 8),):
+                case = {"transport": transport, "keep": keep, "T": T, "R": R, "count": count, "content": content,
+                        "tx": [[[d1, ["head", s]], [d2, ["tail", s]]]]}
+                _apply(acc, case)
+    CONTENT = "pattern"
     cmd, F, F2 = frames(transport, count)
-    for s in range(1, len(F)):
-        for d1, d2 in ((2, 2), (2, 8), (0, 15), (2, 20), (14, 15)):
-            case = {"transport": transport, "keep": keep, "T": T, "R": R, "count": count,
-                    "tx": [[[d1, ["head", s]], [d2, ["tail", s]]]]}
-            _apply(acc, case)
     acc.sample({"transport": transport, "keep": keep, "count": count, "frame_len": len(F), "splits": len(F) - 1})
     return acc
 
@@ -211,6 +227,9 @@ def hyp_job(job):
     def cases(draw):
         transport = draw(st.sampled_from(("udp", "aa55", "tcp")))
         count = draw(st.integers(0, 255)) if transport == "aa55" else draw(st.integers(1, 125))
+        global CONTENT
+        content = draw(st.sampled_from(("pattern", "pattern", "markers", "ff")))
+        CONTENT = content
         cmd, F, F2 = frames(transport, count)
         R = draw(st.integers(0, 3))
         s = draw(st.integers(1, max(1, len(F) - 1)))
@@ -227,7 +246,8 @@ def hyp_job(job):
         first = draw(st.lists(st.tuples(tick, spec).map(list), max_size=2))
         first = sorted([[draw(st.integers(0, 15)), ["head", s]]] + first, key=lambda e: e[0])
         return {"transport": transport, "keep": draw(st.booleans()), "T": draw(st.sampled_from((0.5, 1.0, 2.0))), "R": R,
-                "count": count, "tx": [first] + draw(st.lists(deliveries, max_size=R)), "latency": draw(st.integers(0, 2))}
+                "count": count, "tx": [first] + draw(st.lists(deliveries, max_size=R)), "latency": draw(st.integers(0, 2)),
+                "content": content}
 
     def body(case):
         if len(acc.samples) < 3:
